@@ -39,6 +39,8 @@ SWEEP = {
     "merge": [("merge:4", 6), ("merge:5", 5), ("merge:6", 5)], "concat": [("concat:4", 7), ("concat:5", 6), ("concat:6", 6)],
     "combine": [("combine:12", 4)], "share": [("share:4", 6), ("share:5", 5)], "fromiter": [("fromiter:3", 8), ("fromiter:5", 7)],
     "scan": [("scan:lin:3:7", 7)], "filter": [("filter:mod:5:2", 7)], "map": [("map:mul:-2", 7)],
+    "at": [("at:0/skip,1/merge,2", 7), ("at:1/map,add,1/combine,2", 7), ("at:2/take,1/concat,3", 7), ("at:0/take,1/merge,3", 6),
+           ("at:1/filter,mod,2,0/combine,2", 7)],
     "chain": [("chain:merge,3/take,2", 6), ("chain:concat,3/skip,1/take,2", 6), ("chain:map,add,1/filter,mod,2,0/scan,lin,2,0/take,3", 6)],
 }
 # LONG deterministic walks (cbdrv long, Script.lean `longWalk`): counts in the hundreds, so that a counter that wraps or saturates (a
